@@ -159,9 +159,13 @@ def chk_case(inp, c):
     if len(row_status) != N:
         row_status = [None] * N
 
-    def mech(base, r):
+    def mech(base, r, excess=1.0):
+        """Status-aware mechanism key.  'optimal_inaccurate' explains deviations of the order of the tolerance only:
+        a deviation of more than 4x the tolerance is keyed ':gross' (never a known finding)."""
         st = row_status[r]
-        return base if st in (None, "optimal") else f"{base}@{st}"
+        if st in (None, "optimal"):
+            return base
+        return f"{base}@{st}" + (":gross" if (st == "optimal_inaccurate" and excess > 4.0) else "")
     finite = np.all(np.isfinite(ubv))
     Z = oracles.Zonotope(Mt, c0, lbv, ubv) if finite else None
     active_any = False
@@ -180,14 +184,14 @@ def chk_case(inp, c):
             tb = np.full(n, tau_b_rel * (np.max(np.abs(xo)) + 1.0))
         viol = np.maximum(lbv - x, np.where(np.isfinite(ubv), x - ubv, -np.inf))
         c.margin("bound violation / tau_b", float(np.max(viol / tb)), 1.0)
-        c.require(np.all(viol <= tb), "returned intensities respect the bounds (within tau_b)", mechanism=mech("bounds", r),
+        c.require(np.all(viol <= tb), "returned intensities respect the bounds (within tau_b)", mechanism=mech("bounds", r, float(np.max(viol / tb))),
                   row=r, worst=float(np.max(viol)), tau_b=float(np.min(tb)), x=x, lb=lbv, ub=ubv)
         # (3) global optimality, witness = BVLS point (exactly in bounds)
         e = oracles.werr(Mt, c0, x, B[r], w)
         gaps.append(e - eo)
         c.margin("error gap / tau_e", e - eo, tau_e)
         c.require(e - eo <= tau_e, "weighted capture error is the global minimum over in-bound intensities (within tau_e)",
-                  mechanism=mech("suboptimal", r), row=r, err=e, err_opt=eo, witness_x=xo, x=x, cls=inp["classes"][r],
+                  mechanism=mech("suboptimal", r, (e - eo) / tau_e), row=r, err=e, err_opt=eo, witness_x=xo, x=x, cls=inp["classes"][r],
                   statuses=statuses)
         xc = np.clip(x, lbv, ubv)
         ec = oracles.werr(Mt, c0, xc, B[r], w)
@@ -206,7 +210,7 @@ def chk_case(inp, c):
             wmax = 1.0 if w is None else float(np.max(w))
             if dep >= 1e-6:
                 c.require(e <= tau_e, "an in-gamut target is reproduced with zero error (within tau_e)",
-                          mechanism=mech("ingamut-nonzero-error", r), row=r, err=e, depth_rel=dep)
+                          mechanism=mech("ingamut-nonzero-error", r, e / tau_e), row=r, err=e, depth_rel=dep)
             elif dep <= -1e-3:
                 ep = float(np.linalg.norm((Bp[r] - B[r]) * (1.0 if w is None else w)))
                 c.require(ep >= eo - tau_e and eo > 0, "an out-of-gamut target is not reported as reproduced",
@@ -215,7 +219,7 @@ def chk_case(inp, c):
             t, _ = oracles.lp_feasible_residual(Mt, c0, lbv, ubv, B[r])
             if t is not None and t <= 1e-9:
                 c.require(e <= tau_e, "an in-gamut target is reproduced with zero error (within tau_e)",
-                          mechanism=mech("ingamut-nonzero-error", r), row=r, err=e)
+                          mechanism=mech("ingamut-nonzero-error", r, e / tau_e), row=r, err=e)
         active_any = active_any or bool(np.any((np.abs(xo - lbv) <= 1e-9) | (np.abs(xo - ubv) <= 1e-9)))
     c.nontrivial(active_any or inp["wkind"] != "none" or inp["kkind"] != "none" or inp["basekind"] != "zero" or n > m)
     c.note("error_gap_vs_bvls", gaps[:4])
@@ -246,3 +250,8 @@ def chk_rereg(inp, c):
 
 
 M.add("fit_after_reregistration", gen_rereg, chk_rereg, weight=1, min_held=40)
+
+
+# the repository's own tests as one more workload: contracts armed in situ (harness/observe.py)
+from harness import observe as _observe  # noqa: E402
+_observe.add_insitu_clause(M, ['lsq_linear.lsq_linear'], runtime)
